@@ -87,7 +87,11 @@ def check_case(case, res: Result):
             return False
 
         def V(mech, msg, n, sib=None):
-            if in_scope_with_nested_interrupt(n):
+            mac = next((a for a in [n] + list(n.parents) if isinstance(a, p.MacroNode)), None)
+            if mac is not None and max_active.get(mac.macro_name, 0) >= 2:
+                # two calls of one macro in progress at once (main path + interrupt): both walk the same body nodes
+                mech = "C02.concurrent_calls_share_macro_body"
+            elif in_scope_with_nested_interrupt(n):
                 mech = "C02.interrupt_survives_reset_of_enclosing_scope"
             elif sib is not None and isinstance(sib, (p.UodCommandNode, p.EngineCommandNode)) and in_repeatable(sib) \
                     and any(e[6] == id(sib) and e[1] == "completed" and e[5] is True and
@@ -104,6 +108,17 @@ def check_case(case, res: Result):
             return False
         active_calls: dict[str, int] = {}
         ever_started: set[int] = set()
+        max_active: dict[str, int] = {}
+        _act: dict[str, int] = {}
+        for e in trace:
+            nn = nodes.get(e[6])
+            if isinstance(nn, p.CallMacroNode):
+                if e[1] == "started" and e[5] is True:
+                    _act[nn.macro_name] = _act.get(nn.macro_name, 0) + 1
+                    max_active[nn.macro_name] = max(max_active.get(nn.macro_name, 0), _act[nn.macro_name])
+                elif e[1] == "completed" and e[5] is True or e[1] == "started" and e[5] is False and e[4] is True \
+                        and not _state_at(trace, e[6], e)["completed"]:
+                    _act[nn.macro_name] = max(0, _act.get(nn.macro_name, 0) - 1)
 
         # ---- rule 1: at most one start per node per epoch
         last_started_idx: dict[int, int] = {}
